@@ -22,6 +22,7 @@ import YorkieModel.Driver.TreeEngine
 import YorkieModel.Driver.ConcEngine
 import YorkieModel.Driver.SrvEngine
 import YorkieModel.Driver.UndoEngine
+import YorkieModel.Driver.TextUndoEngine
 open Yorkie.Driver
 
 def engines : List (String × Engine) := [
@@ -46,7 +47,8 @@ def engines : List (String × Engine) := [
   ("proto", ProtoEngine.engine),
   ("fdoc", FDocEngine.engine), ("json", JsonEngine.engine),
   ("pubsub", PubSubEngine.engine), ("pubsubstress", PubSubEngine.engine), ("tree", TreeEngine.engine), ("conc", ConcEngine.engine), ("srv", SrvEngine.engine),
-  ("compact", ProtoEngine.X.engine), ("faults", ProtoEngine.X.engine), ("undo", UndoEngine.engine)
+  ("compact", ProtoEngine.X.engine), ("faults", ProtoEngine.X.engine), ("undo", UndoEngine.engine),
+  ("textundo", TextUndoEngine.engine)
 ]
 
 partial def loop (e : Engine) (h : IO.FS.Stream) (out : IO.FS.Stream) (st : e.State) : IO Unit := do
